@@ -14,6 +14,7 @@ import (
 	"runtime/debug"
 	"strings"
 	"sync"
+	"sync/atomic"
 	"syscall"
 	"time"
 )
@@ -206,9 +207,13 @@ type child struct {
 
 var caseTimeoutMs = 1500
 
-func startChild(fam string, env []string) (*child, error) {
+var confirmedHangs, totalHangs int32
+
+const hangLimit = 24
+
+func startChild(fam string, env []string, timeoutMs int) (*child, error) {
 	self, _ := os.Executable()
-	cmd := exec.Command(self, "worker", "-family", fam, "-case-timeout", fmt.Sprint(caseTimeoutMs))
+	cmd := exec.Command(self, "worker", "-family", fam, "-case-timeout", fmt.Sprint(timeoutMs))
 	cmd.Env = append(os.Environ(), env...)
 	stdin, _ := cmd.StdinPipe()
 	stdout, _ := cmd.StdoutPipe()
@@ -304,9 +309,12 @@ func cmdRun(args []string) int {
 			defer wg.Done()
 			var c *child
 			for raw := range jobs {
+				if atomic.LoadInt32(&totalHangs) >= hangLimit {
+					continue // fail fast: the property is already violated many times over
+				}
 				if c == nil {
 					var err error
-					c, err = startChild(*fam, nil)
+					c, err = startChild(*fam, nil, caseTimeoutMs)
 					if err != nil {
 						infraMu.Lock()
 						infra++
@@ -338,11 +346,25 @@ func cmdRun(args []string) int {
 						emit(b)
 						continue
 					}
-					emit(bytes.TrimSpace(r.line))
 					if bytes.Contains(r.line, []byte(`"kind":"hang"`)) {
 						c.kill(false) // the worker exits after reporting a hang
 						c = nil
+						// a loaded machine can stall a healthy case: a hang is only reported when the case also
+						// exceeds a six times longer limit in a fresh worker
+						// (only until one hang has been confirmed: after that further hangs are taken at face value, and
+						// after hangLimit of them the remaining cases are skipped -- every one would cost the full limit)
+						if atomic.LoadInt32(&confirmedHangs) == 0 {
+							if again := confirmHang(*fam, raw); again != nil {
+								emit(again)
+								continue
+							}
+							atomic.AddInt32(&confirmedHangs, 1)
+						}
+						atomic.AddInt32(&totalHangs, 1)
+						emit(bytes.TrimSpace(r.line))
+						continue
 					}
+					emit(bytes.TrimSpace(r.line))
 				case <-time.After(time.Duration(*timeoutMs) * time.Millisecond):
 					dump := c.kill(true)
 					c = nil
@@ -351,6 +373,7 @@ func cmdRun(args []string) int {
 						Case: json.RawMessage(bytes.TrimSpace(raw))}
 					b, _ := json.Marshal(res)
 					emit(b)
+					atomic.AddInt32(&totalHangs, 1)
 				}
 			}
 			if c != nil {
@@ -369,6 +392,34 @@ func cmdRun(args []string) int {
 		return 2
 	}
 	return 0
+}
+
+// confirmHang re-runs one case in a fresh worker with a six times longer limit. It returns the result line of the
+// second run when the case finished there (so the first "hang" was a stall), nil when it hung again.
+func confirmHang(fam string, raw []byte) []byte {
+	saved := caseTimeoutMs
+	c, err := startChild(fam, nil, 6*saved)
+	if err != nil {
+		return nil
+	}
+	defer c.kill(false)
+	c.stdin.Write(raw)
+	c.stdin.Write([]byte("\n"))
+	ch := make(chan []byte, 1)
+	go func() {
+		l, _ := c.stdout.ReadBytes('\n')
+		ch <- l
+	}()
+	select {
+	case l := <-ch:
+		l = bytes.TrimSpace(l)
+		if len(l) == 0 || bytes.Contains(l, []byte(`"kind":"hang"`)) {
+			return nil
+		}
+		return l
+	case <-time.After(time.Duration(7*saved+2000) * time.Millisecond):
+		return nil
+	}
 }
 
 func firstLines(s string, n int) string {
